@@ -9,10 +9,12 @@
 package rosmar
 
 import (
+	"bytes"
 	"context"
 	"encoding/json"
 	"errors"
 	"fmt"
+	"io"
 	"strings"
 
 	sgbucket "github.com/couchbase/sg-bucket"
@@ -28,8 +30,7 @@ func (c *Collection) GetSubDocRaw(_ context.Context, key string, subdocKey strin
 		return
 	}
 
-	var fullDoc map[string]interface{}
-	casOut, err = c.Get(key, &fullDoc)
+	fullDoc, casOut, err := c.getJSONObject(key)
 	if err != nil {
 		return
 	}
@@ -54,7 +55,7 @@ func (c *Collection) WriteSubDoc(_ context.Context, key string, subdocKey string
 	traceEnter("WriteSubDoc", "%q, %q, %d, %s", key, subdocKey, cas, rawValue)
 	var value any
 	if len(rawValue) > 0 {
-		if err = json.Unmarshal(rawValue, &value); err != nil {
+		if err = unmarshalKeepingNumbers(rawValue, &value); err != nil {
 			return 0, err
 		}
 	}
@@ -73,7 +74,7 @@ func (c *Collection) subdocWrite(key string, subdocKey string, cas CAS, value an
 	for {
 		// Get doc (if it exists) to change sub doc value in
 		var fullDoc map[string]any
-		casOut, err = c.Get(key, &fullDoc)
+		fullDoc, casOut, err = c.getJSONObject(key)
 		var missingError sgbucket.MissingError
 		if err != nil && !(!insert && errors.As(err, &missingError)) {
 			return 0, err // SubdocInsert should fail if doc doesn't exist; WriteSubDoc doesn't
@@ -121,6 +122,31 @@ func (c *Collection) subdocWrite(key string, subdocKey string, cas CAS, value an
 		}
 		return casOut, nil
 	}
+}
+
+// getJSONObject reads a document as a JSON object for a sub-document operation. Number literals are kept as they
+// are stored: decoding them into float64 would round integers beyond 2^53 and long decimals, also in properties
+// the operation does not address.
+func (c *Collection) getJSONObject(key string) (doc map[string]any, cas CAS, err error) {
+	raw, cas, err := c.GetRaw(key)
+	if err != nil {
+		return nil, cas, err
+	}
+	err = unmarshalKeepingNumbers(raw, &doc)
+	return doc, cas, err
+}
+
+// unmarshalKeepingNumbers is json.Unmarshal, except that numbers are decoded as json.Number.
+func unmarshalKeepingNumbers(data []byte, v any) error {
+	decoder := json.NewDecoder(bytes.NewReader(data))
+	decoder.UseNumber()
+	if err := decoder.Decode(v); err != nil {
+		return err
+	}
+	if _, err := decoder.Token(); err != io.EOF {
+		return errors.New("invalid character after top-level JSON value")
+	}
+	return nil
 }
 
 // Parses a subdoc key into an array of JSON path components.
